@@ -36,7 +36,8 @@ def exhaustive(tier):
 
 
 def model_runs(tier):
-    return []
+    from harness import algo
+    return algo.earley(tier)
 
 
 def hashseeds(tier):
